@@ -21,7 +21,7 @@ import traceback
 from typing import Any, Callable, Dict, Iterable, List, Optional
 
 _CTX = None
-SCRATCH_BASE = os.environ.get("VERIF_SCRATCH") or tempfile.gettempdir()
+SCRATCH_BASE = os.environ.get("VERIF_SCRATCH") or "/tmp"
 
 
 def ctx():
